@@ -189,4 +189,251 @@ theorem iter_dir_post (dp : Path) (dest : Str) (o : Opts) (hd : CleanAbs dest) (
                 | err => simp only [hout', show (Out.err != Out.ok) = true from rfl, if_true, Prog.run] at hrun; cases hrun
                 | breakout => simp only [hout', show (Out.breakout != Out.ok) = true from rfl, if_true, Prog.run] at hrun; cases hrun
 
+
+/-! ### the deferred directory-time pass, seen from one directory -/
+
+/-- `utimes` changes nothing but a modification time -/
+theorem utimes_erase (w : World) (p : Str) (t : Option Int) (fl : Bool) (j : Ino) :
+    ((step w (.utimes p t fl)).2.fs.inode j).map eraseM = (w.fs.inode j).map eraseM := by
+  simp only [step]
+  split
+  · rfl
+  · split
+    · rfl
+    · rename_i i _
+      split
+      · rfl
+      · simp only
+        by_cases hji : j = i
+        · subst hji
+          unfold FS.modInode
+          cases hn : w.fs.inode j with
+          | none => simp [hn]
+          | some n => simp [FS.setInode, eraseM]
+        · rw [inode_modInode_ne _ _ _ _ hji]
+
+/-- the pass changes modification times only, and keeps the invariant -/
+theorem dirTimes_erase (dp : Path) (dest : Str) : ∀ (ds : List Entry) (w : World), LW dp w → DirsOK dp dest ds →
+    LW dp ((dirTimesP dest ds).run w).2 ∧
+    ∀ j, (((dirTimesP dest ds).run w).2.fs.inode j).map eraseM = (w.fs.inode j).map eraseM
+  | [], w, hw, _ => ⟨hw, fun _ => rfl⟩
+  | d :: ds, w, hw, hds => by
+    have hp : LexArg dp (join dest d.name) := hds d (by simp)
+    have hrest : DirsOK dp dest ds := fun x hx => hds x (by simp [hx])
+    simp only [dirTimesP]
+    rw [run_sys_bind, lstat_world]
+    split
+    · exact dirTimes_erase dp dest ds w hw hrest
+    · rw [run_sys_bind]
+      have hgood := step_good dp w (.utimes (join dest d.name) (some (boundTime d.mtime)) true) hw
+        (good_lex (s := .utimes (join dest d.name) (some (boundTime d.mtime)) true) hp)
+      split
+      · exact ⟨hgood.2, fun j => utimes_erase w _ _ true j⟩
+      · have ih := dirTimes_erase dp dest ds _ hgood.2 hrest
+        exact ⟨ih.1, fun j => by rw [ih.2 j, utimes_erase w _ _ true j]⟩
+
+/-- `utimes` on another path leaves a directory's inode alone (a directory has one name) -/
+theorem utimes_other (dp : Path) (w : World) (hw : LW dp w) (path : Str) (hp : LexArg dp path) (t : Option Int) (fl : Bool)
+    (P : Path) (i : Ino) (n : Inode) (hl : w.fs.lookup P = some i) (hi : w.fs.inode i = some n) (hk : n.kind = .dir)
+    (hne : pathComps path ≠ P) : (step w (.utimes path t fl)).2.fs.inode i = some n := by
+  simp only [step]
+  cases hr : resolve w path fl with
+  | err e => simp only; exact hi
+  | ok q =>
+    have hq := resolve_lexical w hw.inv.root hw.inv.nosym path fl q hp.2 hr
+    subst hq
+    simp only
+    cases hlk : w.fs.lookup (pathComps path) with
+    | none => simp only; exact hi
+    | some j =>
+      simp only
+      cases t with
+      | none => simp only; exact hi
+      | some tt =>
+        simp only
+        have hji : i ≠ j := by
+          intro e
+          subst e
+          exact hne (hw.inv.dirone _ _ i n hlk hl hi hk)
+        rw [inode_modInode_ne _ _ _ _ hji]; exact hi
+
+/-- entries that name other paths leave the directory at `P` exactly as it was -/
+theorem dirTimes_avoid (dp : Path) (dest : Str) (P : Path) (i : Ino) (n : Inode) (hk : n.kind = .dir) :
+    ∀ (ds : List Entry) (w : World), LW dp w → DirsOK dp dest ds →
+    (∀ d ∈ ds, pathComps (join dest d.name) ≠ P) → w.fs.lookup P = some i → w.fs.inode i = some n →
+    ((dirTimesP dest ds).run w).2.fs.inode i = some n
+  | [], _, _, _, _, _, hi => hi
+  | d :: ds, w, hw, hds, hav, hl, hi => by
+    have hp : LexArg dp (join dest d.name) := hds d (by simp)
+    have hrest : DirsOK dp dest ds := fun x hx => hds x (by simp [hx])
+    have havr : ∀ x ∈ ds, pathComps (join dest x.name) ≠ P := fun x hx => hav x (by simp [hx])
+    simp only [dirTimesP]
+    rw [run_sys_bind, lstat_world]
+    split
+    · exact dirTimes_avoid dp dest P i n hk ds w hw hrest havr hl hi
+    · rw [run_sys_bind]
+      have hgood := step_good dp w (.utimes (join dest d.name) (some (boundTime d.mtime)) true) hw
+        (good_lex (s := .utimes (join dest d.name) (some (boundTime d.mtime)) true) hp)
+      have hi' := utimes_other dp w hw _ hp (some (boundTime d.mtime)) true P i n hl hi hk (hav d (by simp))
+      split
+      · exact hi'
+      · exact dirTimes_avoid dp dest P i n hk ds _ hgood.2 hrest havr
+          (by rw [lookup_kept_utimes]; exact hl) hi'
+
+/-- the entry for `P`, followed by entries for other paths: if the pass succeeds the directory carries that
+    entry's (clamped) time and is otherwise what it was -/
+theorem dirTimes_hit (dp : Path) (dest : Str) (P : Path) (i : Ino) (n : Inode) (hk : n.kind = .dir)
+    (d : Entry) (ds : List Entry) (w : World) (hw : LW dp w) (hds : DirsOK dp dest (d :: ds))
+    (hd : pathComps (join dest d.name) = P) (hav : ∀ x ∈ ds, pathComps (join dest x.name) ≠ P)
+    (hl : w.fs.lookup P = some i) (hi : w.fs.inode i = some n)
+    (hok : ((dirTimesP dest (d :: ds)).run w).1 = .ok) :
+    ((dirTimesP dest (d :: ds)).run w).2.fs.inode i = some { n with mtime := some (boundTime d.mtime) } := by
+  have hp : LexArg dp (join dest d.name) := hds d (by simp)
+  have hrest : DirsOK dp dest ds := fun x hx => hds x (by simp [hx])
+  simp only [dirTimesP] at hok ⊢
+  rw [run_sys_bind, lstat_world] at hok ⊢
+  have hlst : notDirRes (step w (.lstat (join dest d.name))).1 = false := by
+    simp only [step]
+    unfold statRes
+    cases hr : resolve w (join dest d.name) false with
+    | err e => simp [notDirRes]
+    | ok q =>
+      have hq := resolve_lexical w hw.inv.root hw.inv.nosym _ false q hp.2 hr
+      subst hq
+      simp only [hd, hl, hi, notDirRes, statOf, hk]
+      simp
+  simp only [hlst, Bool.false_eq_true, if_false] at hok ⊢
+  rw [run_sys_bind] at hok ⊢
+  have hgood := step_good dp w (.utimes (join dest d.name) (some (boundTime d.mtime)) true) hw
+    (good_lex (s := .utimes (join dest d.name) (some (boundTime d.mtime)) true) hp)
+  by_cases he : isErr (step w (.utimes (join dest d.name) (some (boundTime d.mtime)) true)).1 = true
+  · simp only [he, if_true] at hok; cases hok
+  · have he' : isErr (step w (.utimes (join dest d.name) (some (boundTime d.mtime)) true)).1 = false := by simpa using he
+    simp only [he', Bool.false_eq_true, if_false] at hok ⊢
+    -- the call succeeded: it went through inode i
+    have hstep : (step w (.utimes (join dest d.name) (some (boundTime d.mtime)) true)).2.fs.inode i =
+        some { n with mtime := some (boundTime d.mtime) } := by
+      simp only [step] at he' ⊢
+      cases hr : resolve w (join dest d.name) true with
+      | err e => rw [hr] at he'; simp [isErr] at he'
+      | ok q =>
+        have hq := resolve_lexical w hw.inv.root hw.inv.nosym _ true q hp.2 hr
+        subst hq
+        simp only [hd, hl]
+        exact inode_modInode_self w.fs i _ n hi
+    exact dirTimes_avoid dp dest P i _ (by simpa using hk) ds _ hgood.2 hrest hav
+      (by rw [lookup_kept_utimes]; exact hl) hstep
+
+theorem dirTimes_cons_run (dest : Str) (d : Entry) (l : List Entry) (w : World) :
+    (dirTimesP dest (d :: l)).run w =
+      if notDirRes (step w (.lstat (join dest d.name))).1 = true then (dirTimesP dest l).run w
+      else if isErr (step w (.utimes (join dest d.name) (some (boundTime d.mtime)) true)).1 = true
+        then (.err, (step w (.utimes (join dest d.name) (some (boundTime d.mtime)) true)).2)
+        else (dirTimesP dest l).run (step w (.utimes (join dest d.name) (some (boundTime d.mtime)) true)).2 := by
+  simp only [dirTimesP]
+  rw [run_sys_bind, lstat_world]
+  split
+  · rfl
+  · rw [run_sys_bind]
+    split
+    · rfl
+    · rfl
+
+/-- the pass over a concatenation: when it succeeds, the first part succeeded and the second ran after it -/
+theorem dirTimes_append (dest : Str) : ∀ (a b : List Entry) (w : World),
+    ((dirTimesP dest (a ++ b)).run w).1 = .ok →
+    ((dirTimesP dest a).run w).1 = .ok ∧
+      (dirTimesP dest (a ++ b)).run w = (dirTimesP dest b).run ((dirTimesP dest a).run w).2
+  | [], b, w, _ => ⟨rfl, rfl⟩
+  | d :: a, b, w, h => by
+    rw [List.cons_append] at h ⊢
+    rw [dirTimes_cons_run dest d (a ++ b) w] at h ⊢
+    rw [dirTimes_cons_run dest d a w]
+    by_cases hc : notDirRes (step w (.lstat (join dest d.name))).1 = true
+    · simp only [hc, if_true] at h ⊢
+      exact dirTimes_append dest a b w h
+    · simp only [hc, if_false] at h ⊢
+      by_cases he : isErr (step w (.utimes (join dest d.name) (some (boundTime d.mtime)) true)).1 = true
+      · simp only [he, if_true] at h; cases h
+      · simp only [he, if_false] at h ⊢
+        exact dirTimes_append dest a b _ h
+
+/-! ### what the fold adds to the deferred list -/
+
+theorem iter_dirs_shape (dest : Str) (o : Opts) (e : Entry) (dirs : List Entry) :
+    (unpackIterP dest o e dirs).All (fun r => ∀ d', r = .ok d' → d' = dirs ∨ ∃ x, d' = x :: dirs ∧ x.name = clean e.name) := by
+  have hsame : ∀ d', (Except.ok dirs : Except Out (List Entry)) = .ok d' → d' = dirs ∨ ∃ x, d' = x :: dirs ∧ x.name = clean e.name := by
+    intro d' h; cases h; exact Or.inl rfl
+  have herr : ∀ (out : Out) d', (Except.error out : Except Out (List Entry)) = .ok d' →
+      d' = dirs ∨ ∃ x, d' = x :: dirs ∧ x.name = clean e.name := by
+    intro _ d' h; cases h
+  simp only [unpackIterP]
+  split
+  · exact hsame
+  · split
+    · exact hsame
+    · split
+      · exact herr _
+      · refine allB _ _ (Prog.All.trivial _) ?_
+        intro i _
+        split
+        · exact herr _
+        · refine allB _ _ (Prog.All.trivial _) ?_
+          intro l _
+          split
+          · exact herr _
+          · split
+            · exact hsame
+            · refine allB _ _ (Prog.All.trivial _) ?_
+              intro rm _
+              split
+              · exact herr _
+              · split
+                · exact herr _
+                · refine allB _ _ (Prog.All.trivial _) ?_
+                  intro conv _
+                  split
+                  · exact herr _
+                  · exact hsame
+                  · refine allB _ _ (Prog.All.trivial _) ?_
+                    intro out _
+                    split
+                    · exact herr _
+                    · intro d' hd'
+                      cases hd'
+                      split
+                      · exact Or.inr ⟨_, rfl, rfl⟩
+                      · exact Or.inl rfl
+
+/-- the deferred list after the fold: the old list with, in front of it, entries named like entries of the archive -/
+theorem loopRun_dirs_shape (dest : Str) (o : Opts) : ∀ (es dirs : List Entry) (w : World) (d : List Entry) (w' : World),
+    loopRun dest o es dirs w = (.ok d, w') →
+    ∃ news, d = news ++ dirs ∧ ∀ x ∈ news, ∃ e ∈ es, x.name = clean e.name
+  | [], dirs, w, d, w', h => by
+    simp only [loopRun] at h
+    injection h with h1 _
+    injection h1 with h1
+    exact ⟨[], by simp [h1], by simp⟩
+  | e :: es, dirs, w, d, w', h => by
+    simp only [loopRun] at h
+    have ha := Prog.All.run _ w (iter_dirs_shape dest o e dirs)
+    cases hr : (unpackIterP dest o e dirs).run w with
+    | mk r w1 =>
+      rw [hr] at h ha
+      cases r with
+      | error out => simp only at h; cases h
+      | ok d1 =>
+        simp only at h
+        obtain ⟨news, hd, hn⟩ := loopRun_dirs_shape dest o es d1 w1 d w' h
+        rcases ha d1 rfl with h1 | ⟨x, h1, hx⟩
+        · exact ⟨news, by rw [hd, h1], fun y hy => by
+            obtain ⟨e', he', hy'⟩ := hn y hy
+            exact ⟨e', by simp [he'], hy'⟩⟩
+        · refine ⟨news ++ [x], by rw [hd, h1]; simp, fun y hy => ?_⟩
+          rcases List.mem_append.mp hy with hy | hy
+          · obtain ⟨e', he', hy'⟩ := hn y hy
+            exact ⟨e', by simp [he'], hy'⟩
+          · rw [List.mem_singleton] at hy
+            exact ⟨e, by simp, by rw [hy]; exact hx⟩
+
 end GA
